@@ -44,7 +44,7 @@ type concEvent struct {
 }
 
 const sharedScript = `function more(l, k) { return len(l) > k; } n = n + 1; if ( Name ~= /^a/ ) { return true; } return more(Tags, 1);`
-const ownScript = `function fib(k) { if ( k < 2 ) { return k; } return fib(k - 1) + fib(k - 2); } c = c + 1; return fib(7) == 13 && ( Name ~= /b+/ || match(Name, Pattern) );`
+const ownScript = `function fib(k) { if ( k < 2 ) { return k; } return fib(k - 1) + fib(k - 2); } c = c + 1; h = {"k": 1, "n": Name, 1.5: 2}; return fib(7) == 13 && h["k"] == 1 && h[1.5] == 2 && h["n"] == Name && ( Name ~= /b+/ || match(Name, Pattern) );`
 
 // an evaluator with a deadline: the run on a spinning object is cut off, the others go through
 const timedScript = `while ( Spin ) { } return true;`
@@ -372,7 +372,7 @@ func buildRaceWorker() (string, error) {
 }
 
 func checkC11(c *Check) {
-	c.rule = "one real concurrent execution (3 goroutines x 2 Run calls on a shared evaluator with objects incl. nil, a persistent counter, a regexp and a user-defined function; 2 goroutines with evaluators of their own running a recursive function and matching never-seen patterns; 2 goroutines sharing an evaluator with a deadline, half of whose runs spin until they are cut off) is recorded through the lock, cache and step hooks as per-goroutine event sequences (evaluator lock/unlock, cache lock/unlock/read/write, reads and writes of the counter, accesses to the machine state); TLC (Trace_Conc) keeps program order and lock semantics and explores ALL interleavings consistent with them, checking NoDataRace (two goroutines about to touch one location, one writing, no common lock), NoLostUpdate, MutualExclusion, Balanced, NoDeadlock and LockDiscipline (every access happens under the lock of its owner, locks are released in reverse order); the same module (EFConc) is first explored as a design (MC_Conc: G goroutines x R runs on a shared evaluator, M evaluators of their own, all interleavings; with the evaluator lock or the cache lock removed TLC must find the race, the lost update and the broken discipline); the same scenario, larger (8+4 goroutines x 5 runs, repeated), runs in a worker built with the Go race detector: a race report, a lost update or a wrong verdict is a violation; distinct = recorded events / worker rounds"
+	c.rule = "one real concurrent execution (3 goroutines x 2 Run calls on a shared evaluator with objects incl. nil, a persistent counter, a regexp and a user-defined function; 2 goroutines with evaluators of their own running a recursive function, building and reading a hash with string and float keys and matching never-seen patterns; 2 goroutines sharing an evaluator with a deadline, half of whose runs spin until they are cut off) is recorded through the lock, cache and step hooks as per-goroutine event sequences (evaluator lock/unlock, cache lock/unlock/read/write, reads and writes of the counter, accesses to the machine state); TLC (Trace_Conc) keeps program order and lock semantics and explores ALL interleavings consistent with them, checking NoDataRace (two goroutines about to touch one location, one writing, no common lock), NoLostUpdate, MutualExclusion, Balanced, NoDeadlock and LockDiscipline (every access happens under the lock of its owner, locks are released in reverse order); the same module (EFConc) is first explored as a design (MC_Conc: G goroutines x R runs on a shared evaluator, M evaluators of their own, all interleavings; with the evaluator lock or the cache lock removed TLC must find the race, the lost update and the broken discipline); the same scenario, larger (8+4 goroutines x 5 runs, repeated), runs in a worker built with the Go race detector: a race report, a lost update or a wrong verdict is a violation; distinct = recorded events / worker rounds"
 	c.assumptions = []string{"the hooks sit at the accesses to shared state (the cache hooks are inside compileRegexp, the lock hooks next to the evaluator mutex, the step hook sees every instruction)", "Go's race detector observes the schedules that occur; TLC's exhaustiveness is over the recorded events"}
 	events, ok := recordConcurrent(c)
 	if !ok {
